@@ -151,6 +151,20 @@ RepSampled(unit, reps, step) == (reps * Len(unit) + step - 1) \div step
 RepGcCount(unit, reps, step) ==
     IF step = 1 THEN reps * GcCount(unit)
     ELSE (reps \div 3) * GcCount(Sampled(Repeat(unit, 3), 3)) + GcCount(Sampled(Repeat(unit, reps % 3), 3))
+\* ---- several streamed segments: segment i = unit_i repeated m_i * chunk times, chunk divisible by 3, so
+\* every segment has a length divisible by 3 and the every-third-symbol sampling restarts in each. The
+\* common factor chunk (resp. chunk / 3) cancels in the fraction: totals beyond 2^32 symbols never appear.
+UnitGc(unit, step) == IF step = 1 THEN GcCount(unit) ELSE GcCount(Sampled(Repeat(unit, 3), 3))
+RECURSIVE SegSum(_, _, _, _)
+SegSum(segs, i, step, what) ==     \* what = "gc": sum of m * UnitGc, "len": sum of m * |unit|
+    IF i > Len(segs) THEN 0
+    ELSE segs[i].m * (IF what = "gc" THEN UnitGc(segs[i].unit, step) ELSE Len(segs[i].unit))
+         + SegSum(segs, i + 1, step, what)
+SegsWritten(segs, chunk) ==        \* the sequence itself (small parameters only)
+    LET RECURSIVE F(_)
+        F(i) == IF i > Len(segs) THEN << >> ELSE Repeat(segs[i].unit, segs[i].m * chunk) \o F(i + 1)
+    IN F(1)
+
 \* floor(c * 10^6 / n) for 0 <= c <= n by long division (no product above 10 * n: TLC integers are 32 bit)
 RECURSIVE LongDiv(_, _, _, _)
 LongDiv(rem, n, digits, acc) ==
@@ -163,4 +177,12 @@ GcRepOk(unit, reps, step, g) ==
     IN  IF n = 0 THEN TRUE
         ELSE /\ g \in 0..Scale
              /\ g >= FixedFloor(c, n) - 1 /\ g <= FixedFloor(c, n) + 2
+GcSegsOk(segs, chunk, step, g) ==
+    LET n == SegSum(segs, 1, step, "len")
+        c == SegSum(segs, 1, step, "gc")
+    IN  /\ chunk > 0 /\ chunk % 3 = 0
+        /\ \A i \in 1..Len(segs) : segs[i].m >= 0
+        /\ IF n = 0 THEN TRUE
+           ELSE /\ g \in 0..Scale
+                /\ g >= FixedFloor(c, n) - 1 /\ g <= FixedFloor(c, n) + 2
 =============================================================================
